@@ -11,8 +11,8 @@ What is modelled (file:function → here):
     a process that is in the map and active is used, otherwise the send goes to a FRESH process
     (`fresh`: outside this process's model); `receive` tests `isActive` once more, enqueues,
     TrySchedule.
-  * grain_pid.go runTurn/dispatchOne (`wStep`): user message → OnReceive with NO `isActive` test
-    (handleGrainContext); PoisonPill → `onPoisonPill := true`, `!isActive` → skip, else deactivate
+  * grain_pid.go runTurn/dispatchOne (`wStep`): user message → OnReceive if `isActive`, else the
+    message is failed with ErrDead (handleGrainContext, fix 6dc1e0c); PoisonPill → `onPoisonPill := true`, `!isActive` → skip, else deactivate
     INSIDE the turn (handlePoisonPill); passivation pill → `!isActive ∨ onPoisonPill` → skip, else
     deactivate inside the turn (handlePassivationPill; its "recently active" re-registration branch
     is not modelled: the pill is taken as expired).
@@ -101,7 +101,10 @@ def wStep (c : Cfg) : Cfg :=
   | .loop (b + 1) =>
     match c.box with
     | [] => { c with sched := .idle, w := .idle }
-    | .user :: rest => emit { c with box := rest, w := .rcv b } (.recvB wid)
+    | .user :: rest =>
+      -- handleGrainContext tests isActive since fix 6dc1e0c: a message queued behind a pill is failed
+      if c.active then emit { c with box := rest, w := .rcv b } (.recvB wid)
+      else { c with box := rest, w := .loop b }
     | .pill :: rest =>
       if c.active then { c with box := rest, onPill := true, w := .dea .deaB .pill b }
       else { c with box := rest, onPill := true, w := .loop b }
@@ -180,10 +183,9 @@ def GW.inDea : GW → Bool
 
 /-! ### the guard of the partial theorem
 
-`okStep` restricts the scheduler so that (a) a user message is only handed to the mailbox while the
-process is active, no pill is queued, and no deactivation is in progress (i.e. sends are not
-concurrent with a deactivation), and (b) a direct (manager-goroutine) deactivation only starts on an
-idle grain with an empty mailbox, and no turn starts while it runs. -/
+`okStep` restricts the scheduler so that the passivation manager starts its direct
+(manager-goroutine) deactivation only while no turn of the grain is in progress, no turn starts
+while it runs, and at most one runs at a time. -/
 def okStep (c : Cfg) (a : Nat) : Bool :=
   match a with
   | 0 =>
@@ -192,8 +194,7 @@ def okStep (c : Cfg) (a : Nat) : Bool :=
     | _ => true
   | k + 1 =>
     match c.threads k with
-    | .sRecv false => c.box.all (· == .user) && !c.w.inDea && c.dea.isNone
-    | .mCheck => c.reent || (c.w == .idle && c.box.isEmpty && c.dea.isNone)
+    | .mCheck => c.reent || (c.w == .idle && c.dea.isNone)
     | _ => true
 
 def guarded (c : Cfg) : List Nat → Bool
